@@ -18,7 +18,7 @@ func init() {
 		Rule: "differential monitor, exact comparison (operations are value-parametric and all operand values identify their position): At on every multi-index and NElems = prod(Shape) for every tensor built; Slice with EVERY index list (each position omitted / {0,0} / any 0<=From<To<=d) for rank <= 3 and sampled index lists for rank 4-6; Patch with every source shape <= target, every offset and every omitted/{0,0}/explicit mix for rank <= 3 (sampled above); Concat along every dim of 2-4 operands with different sizes; Reshape to every shape with the same element count (rank <= 4 targets exhaustive, 5-6 sampled); Flatten/Squeeze/UnSqueeze at every dim; Broadcast to every target made of 0-2 new leading dims x each size-1 dim kept or expanded; Full/Zeros/Ones/Eye(1..6)/TensorOf at every nesting depth. " +
 			"Round-trip monitors on the real results: Slice(Patch(t,idx,s), region) = s, Slice(Concat(ts), block_i) = ts_i. Non-trivial: the result or operand has >= 2 elements; distinct = (op, shapes, argument form).",
 		Assumptions: []string{"operands of rank <= 4 are built with TensorOf on nested slices, rank 5-6 with TensorOf(flat)+Reshape"},
-		FloorQuick:  5000, FloorThor: 60000,
+		FloorQuick:  20000, FloorThor: 100000,
 		Run: runC06,
 	})
 }
@@ -85,7 +85,7 @@ func runC06(c *fw.Ctx) {
 			c.Case(func(k *fw.K) { c06Slice(k, shape, index) })
 		}
 	}
-	for i := 0; i < c.Pick(3000, 30000); i++ {
+	for i := 0; i < c.Pick(10000, 100000); i++ {
 		c.Case(func(k *fw.K) {
 			shape := RandShape(k.Rng, 4, 6, 3)
 			n := k.Rng.Intn(len(shape) + 1)
@@ -122,7 +122,7 @@ func runC06(c *fw.Ctx) {
 			}
 		}
 	}
-	for i := 0; i < c.Pick(3000, 30000); i++ {
+	for i := 0; i < c.Pick(10000, 100000); i++ {
 		c.Case(func(k *fw.K) {
 			dst := RandShape(k.Rng, 4, 6, 3)
 			src := make([]int, len(dst))
@@ -164,7 +164,7 @@ func runC06(c *fw.Ctx) {
 			})
 		}
 	}
-	for i := 0; i < c.Pick(1000, 10000); i++ { // high-rank reshapes
+	for i := 0; i < c.Pick(4000, 40000); i++ { // high-rank reshapes
 		c.Case(func(k *fw.K) {
 			shape := RandShape(k.Rng, 0, 6, 3)
 			ts := shapesWithProduct(ref.Prod(shape), 6)
